@@ -14,6 +14,7 @@ from labtech.lab import Lab
 
 import lv_universe as U
 from common import rng_for, subdir
+from common import storage_of
 
 logging.getLogger('labtech').setLevel(logging.CRITICAL)
 
@@ -68,12 +69,12 @@ def run_config(cfg):
         leaked = []
         import hashlib
         for t in leaves + tops + refs + [reftop]:
-            with lab._storage.file_handle(t.cache_key, 'metadata.json', mode='r') as fh:
+            with storage_of(lab).file_handle(t.cache_key, 'metadata.json', mode='r') as fh:
                 raw_md = fh.read()
             md = json.loads(raw_md)
             md.pop('start_timestamp', None)
             md.pop('duration_seconds', None)
-            with lab._storage.file_handle(t.cache_key, 'data.pickle', mode='rb') as fh:
+            with storage_of(lab).file_handle(t.cache_key, 'data.pickle', mode='rb') as fh:
                 data = fh.read()
             stored[t.label] = [md, hashlib.sha1(data).hexdigest()]
             if b'SENTINEL' in data or 'SENTINEL' in raw_md:
